@@ -122,3 +122,13 @@ package heur
 //@ func (*MoveRanker).RankNoisy view search
 //@   trusted read-only
 //@   modifies nothing
+//@
+//@ # ---- C18 (safety part): the exchange evaluation never panics, never writes, and its exchange
+//@ # ---- square bookkeeping only ever removes pieces from the occupancy
+//@ func SEE
+//@   props C18
+//@   requires b.STM <= 1 && m < 1<<15 && (m >> 12) <= 6 && all(i, 0, 63, b.SquaresToPiece[i] <= 6)
+//@   modifies nothing
+//@   nopanic
+//@   loop 1: invariant stm <= 1 && res <= 1 && 1 <= start[0] && start[0] <= 3 && 1 <= start[1] && start[1] <= 3 && occ & ^pre(occ) == 0
+//@   loop 1: modifies start
